@@ -1,8 +1,10 @@
 //! hv — conformance harness binding the TLA+ specification in /verif/spec to ureq-proto (/repo).
 //! Every subcommand drives the PUBLIC API only and writes one ndjson event per call.
 mod drv_br;
+mod drv_c01;
 mod drv_flow;
 mod drv_head;
+mod drv_hostile;
 mod drv_redir;
 mod flowbox;
 mod drv_req;
@@ -36,6 +38,8 @@ fn main() {
         i += 2;
     }
     silence_panics();
+    std::fs::create_dir_all(&o.out).ok();
+    start_watchdog(o.out.clone(), 40);
     let prop = drv.to_uppercase();
     let mut t = Tracer::new(&o.out, o.shards, &prop, o.only.clone());
     let mut extra = serde_json::json!({});
@@ -54,6 +58,8 @@ fn main() {
         "c11" => extra = drv_flow::c11(&o, &mut t),
         "c13" | "c14" => extra = drv_redir::c13_14(&o, &mut t),
         "c15" => extra = drv_redir::c15(&o, &mut t),
+        "c12" => extra = drv_hostile::c12(&o, &mut t),
+        "c01" => extra = drv_c01::c01(&o, &mut t),
         "c02" => extra = drv_req::c02(&o, &mut t),
         "c16" => extra = drv_req::c16(&o, &mut t),
         "c17" => extra = drv_req::c17(&o, &mut t),
